@@ -17,12 +17,14 @@ Proved at wire level, for ARBITRARY wire values (`wclean`: no NaN, no repeated s
 may repeat field identifiers): `wire.ValuesAreEqual` is an equivalence relation (`wire_equal_refl/symm/trans`)
 and holds exactly when an independent statement of "the same logical value" holds (`wire_equal_iff_same_logical_value`;
 `specEq` tests no lengths or counts and looks both ways). The Go harness has its own comparison as well.
-Not proved: that every `ToWire` image of a decoded value is `wclean` at the same fuel (the two halves are
-joined by the correspondence: the harness feeds both with the same values).
+The two halves are joined by `towire_image_clean` (every `ToWire` image of a value in decoded form is `wclean`
+at the same fuel): `equals_iff_same_logical_value` is the property's chain in one statement — x.Equals(y) ⇔
+wire.ValuesAreEqual(x.ToWire(), y.ToWire()) ⇔ the independent comparison of the two logical values.
 -/
 import ThriftVerif.Schema.EqualsProofs
 import ThriftVerif.Schema.EqWireProofs
 import ThriftVerif.Schema.WireEquivProofs
+import ThriftVerif.Schema.ToWireClean
 
 namespace ThriftVerif.Properties.C14
 open ThriftVerif.Wire ThriftVerif.Schema
@@ -96,6 +98,24 @@ theorem wire_equal_iff_same_logical_value (fuel : Nat) (x y : WValue)
     (hx : wclean fuel x = true) (hy : wclean fuel y = true) :
     wireEq fuel x y = true ↔ specEq fuel x y = true := by
   rw [wireEq_eq_specEq fuel x y hx hy]
+
+/-- What generated code serialises is a clean wire value: no NaN, no set with two equal items, no map with two
+equal keys — for every schema with pairwise different field identifiers, every type, every value in decoded form. -/
+theorem towire_image_clean (env : Env) (hids : WFIds env) (fuel : Nat) (t : Ty) (g : GVal) (w : WValue)
+    (hg : decodedV env fuel t g = true) (hw : toWire env fuel t g = .ok w) : wclean fuel w = true :=
+  toWire_clean env hids fuel t g w hg hw
+
+/-- **The property's chain in one statement**: on values in decoded form, `x.Equals(y)` holds exactly when
+`wire.ValuesAreEqual` holds of the two wire forms, and that exactly when the independent structural
+comparison of the two logical values (`specEq`) says so. -/
+theorem equals_iff_same_logical_value (env : Env) (hids : WFIds env) (fuel : Nat) (t : Ty) (x y : GVal)
+    (wx wy : WValue) (hx : decodedV env fuel t x = true) (hy : decodedV env fuel t y = true)
+    (hwx : toWire env fuel t x = .ok wx) (hwy : toWire env fuel t y = .ok wy) :
+    (equalsG env fuel t x y = true ↔ wireEq fuel wx wy = true) ∧
+    (wireEq fuel wx wy = true ↔ specEq fuel wx wy = true) := by
+  refine ⟨by rw [equals_eq_wireEq env hids fuel t x y wx wy hx hy hwx hwy], ?_⟩
+  rw [wireEq_eq_specEq fuel wx wy (toWire_clean env hids fuel t x wx hx hwx)
+    (toWire_clean env hids fuel t y wy hy hwy)]
 
 /-- Non-vacuity: a struct that repeats an identifier, holding a set, a map with struct keys and a list, is
 `wclean`; it is equal to a permuted re-arrangement of itself and different from a perturbed one — both
